@@ -420,3 +420,173 @@ PROPS['C10'] = dict(
     technique='Coq support-level theorems (splice / mask algebra) + exact support-membership and support-completeness correspondence, exhaustive exchange-primitive arguments',
     design_ref='DESIGN.md §7 C10',
 )
+
+# ---------------------------------------------------------------------------
+# statistical comparison of seeded empirical frequencies with exact model laws (DESIGN §3.4)
+import math
+from fractions import Fraction
+STAT_DELTA = 1e-12
+STAT = {'max_dev': 0.0, 'cells': 0, 'resampled': 0, 'draws': 0}
+
+def bernstein_threshold(p, n):
+    L = math.log(2.0 / STAT_DELTA)
+    return math.sqrt(2.0 * p * (1.0 - p) * L / n) + 2.0 * L / (3.0 * n)
+
+def stat_decide(law, hist):
+    """law: {code: Fraction}; hist: {code: count}.  Returns (impossible, flagged cells, max deviation / threshold)"""
+    n = sum(hist.values())
+    impossible = [c for c, k in hist.items() if k > 0 and law.get(c, 0) == 0]
+    flagged, worst = [], 0.0
+    for c, p in law.items():
+        if p <= 0:
+            continue
+        pf = float(p)
+        f = hist.get(c, 0) / n if n else 0.0
+        thr = bernstein_threshold(pf, n) if n else 1.0
+        dev = abs(f - pf) / thr
+        worst = max(worst, dev)
+        if dev > 1.0:
+            flagged.append((c, f, pf, thr))
+    return impossible, flagged, worst
+
+def make_stat_post(pid, obs_code=None, hist_of=None):
+    """builds a post_batch hook: verdict [4, code, num, den, ...] cases are decided statistically,
+    a flagged cell is re-sampled once with 10x the draws and a fresh seed before it counts"""
+    def post(inputs, obs, verdicts):
+        from driver_main import run_inputs
+        retry = []
+        for i, v in enumerate(verdicts):
+            if not v or v[0] != 4:
+                continue
+            law = {}
+            m = v[1]
+            cmap = v[2:2 + m]
+            aux = v[2 + m:]
+            code_of = (lambda inp, oc, cmap=cmap: (cmap[oc] if 0 <= oc < len(cmap) else (oc if oc < 0 else -100))) if m else obs_code
+            for j in range(0, len(aux) - 2, 3):
+                law[aux[j]] = law.get(aux[j], 0) + Fraction(aux[j + 1], aux[j + 2])
+            o = obs[i]
+            if not isinstance(o, list) or (o and not isinstance(o[0], list)):
+                verdicts[i] = [2, 'no histogram (panic/abort?)', o]
+                continue
+            hist = {}
+            for oc, k in (hist_of(inputs[i], o) if hist_of else o):
+                c = code_of(inputs[i], oc)
+                hist[c] = hist.get(c, 0) + k
+            imp, flagged, worst = stat_decide(law, hist)
+            STAT['cells'] += len(law); STAT['draws'] += sum(hist.values()); STAT['max_dev'] = max(STAT['max_dev'], worst)
+            if imp:
+                verdicts[i] = [2, 'outcome with model probability 0 observed', imp[:5]]
+            elif flagged:
+                retry.append((i, law, [c for c, *_ in flagged], code_of))
+            else:
+                verdicts[i] = [0]
+        if retry:
+            STAT['resampled'] += len(retry)
+            new_inputs = []
+            for i, law, cells, code_of in retry:
+                inp = list(inputs[i]); inp[0] = (inp[0] * 6364136223846793005 + 1442695040888963407) % (1 << 62); inp[1] = inp[1] * 10
+                new_inputs.append(inp)
+            o2, valid = run_inputs(pid, new_inputs, tag='resample')
+            for (i, law, cells, code_of), inp2, ob in zip(retry, new_inputs, o2):
+                hist = {}
+                if isinstance(ob, list) and (not ob or isinstance(ob[0], list)):
+                    for oc, k in (hist_of(inp2, ob) if hist_of else ob):
+                        c = code_of(inp2, oc)
+                        hist[c] = hist.get(c, 0) + k
+                imp, flagged, worst = stat_decide(law, hist)
+                still = [f for f in flagged if f[0] in cells]
+                if imp or still or not hist:
+                    c, f, p, thr = (still or flagged or [(None, 0, 0, 0)])[0]
+                    verdicts[i] = [2, 'frequency differs from the model law (confirmed on a 10x re-sample)', dict(cell=c, observed=f, model=p, threshold=thr)]
+                else:
+                    verdicts[i] = [0]
+    return post
+
+def stat_cov_extra(inputs, obs, verdicts):
+    return dict(statistical_cells=STAT['cells'], statistical_draws=STAT['draws'], cases_resampled=STAT['resampled'],
+                max_deviation_over_threshold=round(STAT['max_dev'], 3), delta_per_cell=STAT_DELTA)
+
+# ---------------------------------------------------------------------------
+# C06 / C07 / C08 / C13: selection
+def sel_obs_code(inp, oc):
+    if oc < 0:
+        return oc
+    pop = inp[2][1]
+    if oc >= len(pop):
+        return -100
+    for j, r in enumerate(pop):
+        if r == pop[oc]:
+            return j
+    return oc
+
+def sel_str(t):
+    k = t[0]
+    if k == 0: return 'Best'
+    if k == 1: return 'Worst'
+    if k == 2: return 'Random'
+    if k == 3: return 'Tournament(%d)' % t[1]
+    if k == 4: return 'Lexicase(%d)' % t[1]
+    if k == 5: return 'Weighted(%s, %d)' % (sel_str(t[2]), t[1])
+    if k == 6: return 'Pair(%s, %s)' % (sel_str(t[1]), sel_str(t[2]))
+    if k == 7: return 'end'
+    if k == 8: return 'Dyn[%s:%d | %s]' % (sel_str(t[1]), t[2], sel_str(t[3]))
+    return '?'
+
+def sel_describe(inp, obs):
+    p = inp[2]
+    return '%s on population %s (%s per case), %d draws seed %d; observed [[index or error code, count]..]' % (
+        sel_str(p[2]), p[1], 'scores' if p[0] else 'errors', inp[1], inp[0])
+
+def sel_kind(t):
+    return {0: 'best', 1: 'worst', 2: 'random', 3: 'tournament', 4: 'lexicase', 5: 'weighted', 6: 'weighted-pair', 8: 'dyn-weighted'}.get(t[0], '?')
+
+def sel_bucket(inp, obs):
+    p = inp[2]
+    out = ['selector=%s' % sel_kind(p[2]), 'pop_size=%d' % len(p[1])]
+    if isinstance(obs, list):
+        for o in obs:
+            if isinstance(o, list) and o and o[0] < 0:
+                out.append('error=%d' % o[0])
+    return out
+
+_SEL_COMMON = dict(corr='CorrSelect', judge='(judge_cases judge)', describe=sel_describe, bucket=sel_bucket, no_shrink=True,
+                   classify=lambda i, o: 'select:%s' % sel_kind(i[2][2]), cov_extra=stat_cov_extra,
+                   trusted=['rand 0.9 primitives (choose, choose_multiple, shuffle, Bernoulli::from_ratio, choose_weighted) as oracles with their documented laws',
+                            'statistical tie: Bernstein threshold with delta = 1e-12 per cell, one 10x re-sample before a cell counts; support membership is exact'])
+PROPS['C06'] = dict(_SEL_COMMON, post_batch=make_stat_post('C06', sel_obs_code),
+    coq_targets=['theories/Props/C06.vo', 'theories/Corr/CorrSelect.vo'],
+    nontrivial=lambda i, o: len(i[2][1]) >= 1,
+    rule='populations (empty, singleton, all-equal, duplicate-laden, ragged with missing cases, random; up to 8 individuals) x selector configurations (best, worst, random, tournament sizes 1..n+2, lexicase case counts 0..4 - smaller/equal/larger than the results available -, weighted trees of depth <= 2 and dynamic lists, also nested in each other, weights incl. 0) x 60 (quick) / 400 (thorough) seeded draws. Each returned reference is located in the population by pointer identity; every observed outcome (index class or documented error) must have positive probability in the model law computed in coqc, and frequencies are compared as well. Non-trivial: non-empty population.',
+    assumptions=['errors are classified through From conversions of the library error enums (no string matching)'],
+    level_text='Theorems (Props/C06.v) by induction over a deep embedding of ALL selector combinations (best, worst, random, tournament, lexicase, weighted leaves and pairs nested arbitrarily, dynamic lists): every selected index is an index of the given population, an empty-population error occurs only for an empty population, and the selection distribution is total (mass 1: no stuck or panicking outcome exists in the model). Tied to the code by exact support membership of every draw (pointer identity).',
+    level_note='Trusted: Coq kernel; harness+driver; rand primitives as oracles.',
+    technique='Coq induction over a deep embedding of selector combinations (support theorems) + exact support-membership correspondence with pointer identity',
+    design_ref='DESIGN.md §5 C06')
+PROPS['C07'] = dict(_SEL_COMMON, post_batch=make_stat_post('C07', sel_obs_code),
+    coq_targets=['theories/Props/C07.vo', 'theories/Corr/CorrSelect.vo'],
+    nontrivial=lambda i, o: len(i[2][1]) >= 2,
+    rule='populations of 1..7 single-case individuals, with and without ties, both polarities; every tournament size k = 1..n with 20000 (quick) / 400000 (thorough) seeded draws of the real Tournament::select, frequencies per tie class against the law evaluated from the model definition (uniform k-subsets, best of the subset) - not from the closed form, which is the theorem; Best and Worst: membership in the maximal / minimal class. Non-trivial: at least two individuals.',
+    assumptions=['ties inside a tournament are resolved in an unspecified way: comparison is per tie class'],
+    level_text='Theorems (Props/C07.v): best/worst return a maximal/minimal individual; every drawn tournament is a k-sublist of the population (distinct individuals), all C(n,k) of them equally likely; the winner is maximal in its tournament, hence at least as good as k-1 others; the CDF of the winner including ties is C(#{<= v}, k) / C(n, k); size 1 is uniform choice and size n is best selection. Tied to the code by exact support checks and seeded frequencies with an explicit error budget.',
+    level_note='Trusted: Coq kernel; harness+driver; choose_multiple uniform over k-subsets (oracle).',
+    technique='Coq counting proof (k-sublists, binomial CDF) over a distribution monad + exact support and statistical-law correspondence',
+    design_ref='DESIGN.md §5 C07')
+PROPS['C08'] = dict(_SEL_COMMON, post_batch=make_stat_post('C08', sel_obs_code),
+    coq_targets=['theories/Props/C08.vo', 'theories/Corr/CorrSelect.vo'],
+    nontrivial=lambda i, o: len(i[2][1]) >= 2 and i[2][2][1] >= 1,
+    rule='result matrices up to 6 individuals x 4 cases with ties and duplicated individuals, zero cases, single individual, both polarities (Score / Error), configured case count = and < the results available; exact law by enumerating all case orders in coqc (<= 24); 20000 (quick) / 400000 (thorough) seeded draws; support both ways (never a zero-probability winner; every individual with noticeable probability is seen) and per-individual frequencies. Non-trivial: >= 2 individuals and >= 1 case.',
+    assumptions=['configured case counts not exceeding the results available (the property quantifier); larger counts are exercised under C06'],
+    level_text='Theorems (Props/C08.v): lexicase filtering keeps, at each case, exactly the candidates with the best result on it (early exit included); a survivor is never Pareto-dominated on the considered cases (for either polarity: the proof is over the key order); with zero cases or a single individual the choice is uniform / that individual. The selection probability is by definition the average over case orders of 1/|survivors|. Tied to the code by exact support checks and seeded frequencies.',
+    level_note='Trusted: Coq kernel; harness+driver; shuffle uniform over permutations (oracle).',
+    technique='Coq invariant proof (accompany lemma => non-dominance) over the filtering loop + exact law by permutation enumeration, statistical correspondence',
+    design_ref='DESIGN.md §5 C08')
+PROPS['C13'] = dict(_SEL_COMMON, post_batch=make_stat_post('C13', sel_obs_code),
+    coq_targets=['theories/Props/C13.vo', 'theories/Corr/CorrSelect.vo'],
+    nontrivial=lambda i, o: True,
+    rule='marker members (best / worst / random over a fixed population) combined in left-nested chains (the with_item_and_weight idiom), right-nested chains, random trees (depth <= 3) and the dynamic list with the same weights; weights from {0,1,2,3,7} and the u32 boundaries {0, 1, 2^31, 2^32-2, 2^32-1}; delegation frequencies against w/total computed in coqc; build-time WeightSumOverflow compared exactly, including which pair is reported and overflow earlier in the chain.',
+    assumptions=['Bernoulli::from_ratio realises wa/(wa+wb) on a 2^-64 grid - below any observable resolution'],
+    level_text='Theorems (Props/C13.v): for EVERY tree shape of weighted pairs a leaf is delegated to with probability weight/total (so nesting and construction order do not matter), zero-weight members are never used, a structure of total weight zero reports ZeroWeight with certainty, the dynamic list picks entry i with probability w_i / sum, and a chain is rejected at build time exactly when some partial sum reaches 2^32 (also when the overflow happened earlier). Tied to the code by delegation frequencies and exact build-time errors.',
+    level_note='Trusted: Coq kernel; harness+driver; Bernoulli / choose_weighted as oracles.',
+    technique='Coq induction over weighted trees in a distribution monad over Q (field arithmetic) + statistical delegation-frequency correspondence, exact build errors',
+    design_ref='DESIGN.md §5 C13')
